@@ -561,7 +561,9 @@ def template_project():
     """One file: a default-private module with entities of every permission and kind that prune() filters
     (types with components and bindings, generic / nameless / abstract interfaces, variables, procedures with
     dummy arguments, locals, an internal procedure and a local type), a program with a contained procedure and
-    a top-level procedure.  -> (files, {level: node}) where level in file / module / type / procedure"""
+    a top-level procedure, a submodule implementing separate module procedures of the module in short and long
+    form (locals, namelists), with a type, a variable and a namelist of its own.
+    -> (files, {level: node}) where level in file / module / type / procedure / submodule"""
     ids = Ids()
     f = mk(ids, "file", "NFile", "src", "public", True)
     f["name"] = f"src{f['id']}.f90"
@@ -615,5 +617,36 @@ def template_project():
     pg["children"] = [["variables", mk(ids, "var", "NOther", "v", "public", True)],
                       ["subroutines", proc("subroutine", "public", "public")]]
     top = proc("function", "public", "public")
-    f["children"] = [["modules", m], ["programs", pg], ["procs", top]]
-    return [f], {"file": f, "module": m, "type": t, "procedure": p_pub}
+    # separate module procedures: interfaces in the module, implementations (short form `module procedure`,
+    # long form `module subroutine` / `module function`) in a submodule, each with locals and a namelist
+    def mp_iface(isfun, perm):
+        x = mk(ids, "mpiface", "NOther", "mp", perm, True, isfun=isfun)
+        x["children"] = [["args", mk(ids, "arg", "NOther", "a", perm, True)]]
+        return x
+
+    def mp_impl(kind, x):
+        p = mk(ids, kind, "NProc", "mpi", "private", True)
+        p["implements"] = x
+        ch = []
+        if kind != "modproc":
+            ch.append(["args", mk(ids, "arg", "NOther", "a", "private", True)])
+        v1, v2 = mk(ids, "var", "NOther", "v", "private", True), mk(ids, "var", "NOther", "v", "private", False)
+        nl = mk(ids, "namelist", "NOther", "nl", "private", True)
+        nl["vars"] = [v1["name"], v2["name"]]
+        p["children"] = ch + [["variables", v1], ["variables", v2], ["namelists", nl]]
+        return p
+    x1, x2, x3 = mp_iface(False, "public"), mp_iface(False, "private"), mp_iface(True, "public")
+    m["children"][6:6] = [["interfaces", x1], ["interfaces", x2], ["interfaces", x3]]
+    sm = mk(ids, "submodule", "NSubmodule", "sm", "private", True)
+    sm["ancestor"] = m["name"]
+    st = mk(ids, "type", "NType", "t", "private", True)
+    st["comp_default"] = st["bind_default"] = None
+    st["children"] = [["variables", mk(ids, "comp", "NOther", "c", "public", True)]]
+    snl_v = mk(ids, "var", "NOther", "v", "private", True)
+    snl = mk(ids, "namelist", "NOther", "nl", "private", True)
+    snl["vars"] = [snl_v["name"]]
+    sm["children"] = [["types", st], ["variables", snl_v], ["namelists", snl],
+                      ["modprocedures", mp_impl("modproc", x1)], ["modsubroutines", mp_impl("modsub", x2)],
+                      ["modfunctions", mp_impl("modfun", x3)], ["subroutines", proc("subroutine", "private", "private")]]
+    f["children"] = [["modules", m], ["submodules", sm], ["programs", pg], ["procs", top]]
+    return [f], {"file": f, "module": m, "type": t, "procedure": p_pub, "submodule": sm}
